@@ -1,17 +1,22 @@
 import Driver.Util
 import ClairModel.Model.TarFS
 import ClairModel.Model.TarFSExtract
+import ClairModel.Model.TarFSDir
 
 /-
   Line protocol of property C11 (see go/internal/c11):
 
     reset                                   -> ok
-    m <kind> <name> <link> <data>           -> ok          (append a member; kind r d s l x; hex fields)
+    m <kind> <name> <link> <data> <hsize> <seg> <mode> <sec> <nsec>
+                                            -> ok          (append a member; kind r d s l x; hex fields; header size,
+                                                            segment size, header mode, ModTime)
     new                                     -> ok <inodes> <keys> | err:<class>
     xtree                                   -> the extraction reference (Model/TarFSExtract) of the members: none | entries
     tables                                  -> canonical dump of the lookup and inode tables
     stat|open|readdir|glob <subs> <arg>     -> answer of the query on the view (after Sub along <subs>)
     walk <subs> <cap>                       -> fs.WalkDir listing, at most <cap> visits
+    page <subs> <path> <n1,n2,...>          -> Open, then ReadDir(n1), ReadDir(n2), ... on the one handle
+    readfile <subs> <path>                  -> io/fs.ReadFile
     fn <name> <args...>                     -> a standard-library function of Model/TarFSPath
 -/
 namespace Driver.C11
@@ -65,7 +70,8 @@ def strLe (a b : String) : Bool := bytesLe a.toUTF8.toList b.toUTF8.toList
 def renderEntries (es : List Entry) : String :=
   renderList ((es.map fun e => s!"{Driver.hex e.name}:{mtName e.mtype}").mergeSort strLe)
 
-def renderInfo (i : Info) : String := s!"{mtName i.mtype} {Driver.hex i.name} {i.size}"
+def renderInfo (i : Info) : String :=
+  s!"{mtName i.mtype} {Driver.hex i.name} {i.size} {i.mode} {i.mtimeS}.{i.mtimeN}"
 
 def renderOpen : OpenRes → String
   | .err e => errName e
@@ -83,9 +89,7 @@ def renderTables (fs : FS) : String :=
     let cs := match n.children with
       | none => "n"
       | some cs => "[" ++ " ".intercalate ((cs.mergeSort (· ≤ ·)).map toString) ++ "]"
-    let d := match n.data with
-      | none => "n"
-      | some d => toString d.length
+    let d := s!"{n.md.hsize}/{n.md.seg}"
     s!"{kindName n.kind}:{Driver.hex n.name}:{if n.kind = .sym ∨ n.kind = .link then Driver.hex n.link else "-"}:{cs}:{d}"
   let txt := ",".intercalate lk ++ " | " ++ ",".intercalate ins
   if txt.length > 1500 then s!"keys={fs.lookup.length} inodes={fs.inodes.length} h={fnv txt.toUTF8.toList}"
@@ -126,6 +130,28 @@ def fnLine : List String → String
     | _, _ => "bad-op"
   | _ => "bad-op"
 
+/-- Entries in the order of the listing (paging shows the order). -/
+def renderOrdered (es : List Entry) : String :=
+  renderList (es.map fun e => s!"{Driver.hex e.name}:{mtName e.mtype}")
+
+def renderPage : Page Entry → String
+  | .entries es => renderOrdered es
+  | .eof => "E"
+  | .panic => "P"
+
+def parseInt (s : String) : Option Int :=
+  if s.startsWith "-" then (s.drop 1).toNat?.map fun n => -(n : Int)
+  else s.toNat?.map fun n => (n : Int)
+
+def pageLine (fs : FS) (path ns : String) : String :=
+  match Driver.unhex path, (ns.splitOn ",").mapM parseInt with
+  | some p, some ns =>
+    match openFS fs p with
+    | .err e => errName e
+    | .file _ _ => "notdir"
+    | .dir _ es => ";".intercalate ((readPages { es := es } ns).map renderPage)
+  | _, _ => "bad-op"
+
 def query (fs : FS) (q : String) (arg : String) : String :=
   match q with
   | "walk" =>
@@ -142,6 +168,7 @@ def query (fs : FS) (q : String) (arg : String) : String :=
       | "open" => renderOpen (openFS fs a)
       | "readdir" => match readDirFS fs a with | .ok es => renderEntries es | .error e => errName e
       | "glob" => renderList ((globFS fs a).map Driver.hex)
+      | "readfile" => match readFileFS fs a with | .ok d => s!"ok {d.length} {fnv d}" | .error e => errName e
       | _ => "bad-op"
 
 def renderXTree (t : XTree) : String :=
@@ -160,10 +187,21 @@ def stepLine (s : St) (l : String) : St × String :=
     match extract s.ms.reverse with
     | some t => (s, renderXTree t)
     | none => (s, "none")
-  | ["m", k, n, lk, d] =>
+  | ["m", k, n, lk, d, hs, sg, mo, sec, ns] =>
     match parseKind k, Driver.unhex n, Driver.unhex lk, Driver.unhex d with
-    | some k, some n, some lk, some d => ({ s with ms := ⟨k, n, lk, d⟩ :: s.ms }, "ok")
+    | some k, some n, some lk, some d =>
+      match hs.toNat?, sg.toNat?, mo.toNat?, parseInt sec, ns.toNat? with
+      | some hs, some sg, some mo, some sec, some ns =>
+        ({ s with ms := ⟨k, n, lk, d, { hsize := hs, seg := sg, mode := mo, mtimeS := sec, mtimeN := ns }⟩ :: s.ms }, "ok")
+      | _, _, _, _, _ => (s, "bad-op")
     | _, _, _, _ => (s, "bad-op")
+  | ["page", chain, path, ns] =>
+    match s.fs with
+    | none => (s, "no-fs")
+    | some fs =>
+      match applySubs fs chain with
+      | .error e => (s, e)
+      | .ok f => (s, pageLine f path ns)
   | ["new"] =>
     match newFS s.ms.reverse with
     | .ok fs => ({ s with fs := some fs }, s!"ok {fs.inodes.length} {fs.lookup.length}")
